@@ -163,7 +163,7 @@ func subWriterReset() mon.Sub {
 		Name: "writer-reset", Required: true,
 		N: func(t string) int {
 			if t == "thorough" {
-				return 300000
+				return 1500000
 			}
 			return 12000
 		},
@@ -336,7 +336,7 @@ func subFlateWriter() mon.Sub {
 		Name: "flate-writer-reset", Required: true,
 		N: func(t string) int {
 			if t == "thorough" {
-				return 60000
+				return 300000
 			}
 			return 3000
 		},
@@ -425,7 +425,7 @@ func subFlateReader() mon.Sub {
 		Name: "flate-reader-reset", Required: true,
 		N: func(t string) int {
 			if t == "thorough" {
-				return 60000
+				return 300000
 			}
 			return 3000
 		},
@@ -516,7 +516,7 @@ func subSmallObjects() mon.Sub {
 		Name: "cipher-utf8-extension-reset", Required: true,
 		N: func(t string) int {
 			if t == "thorough" {
-				return 200000
+				return 1000000
 			}
 			return 10000
 		},
